@@ -50,14 +50,14 @@ MkProblem(n, c, S, s) == [n |-> n, cls |-> c, sp |-> WithZeros(Pick(S), NZ(c)), 
 
 (* F1 "place": every placement of null / stiffness-only amplitudes (n <= NPlace), canonical spectra, scale 1;
    F2 "spec" : all spectra of the alphabet x scales {1, 2, 1/2} on a few placements *)
-NPlace == IF Thorough THEN 6 ELSE (IF Family = "lb" THEN 4 ELSE 5)
+NPlace == IF Thorough THEN 5 ELSE (IF Family = "lb" THEN 4 ELSE 5)
 PatternsAt(n) ==
     LET base == [i \in 1..n |-> "both"]
     IN { base, [base EXCEPT ![2] = "null"] } \cup
        (IF Family = "lb" THEN { [base EXCEPT ![2] = "null", ![4] = "konly"], [base EXCEPT ![1] = "konly"] } ELSE {}) \cup
        (IF n >= 6 THEN { [base EXCEPT ![3] = "null", ![6] = "null"] } ELSE {})
 Scales(c) == IF Thorough /\ NZ(c) > 0 THEN { ROne } ELSE { ROne, Q(2,1), Q(1,2) }
-Nums(n, tag) == IF Thorough THEN (IF n >= 6 THEN {1, n - 1, n + 2} ELSE {1, 2, 3, n - 1, n, n + 2})
+Nums(n, tag) == IF Thorough THEN (IF tag = "spec" THEN {1, 3, n - 1, n + 2} ELSE {1, 2, 3, n - 1, n, n + 2})
                 ELSE IF tag = "place" THEN {1, n - 1, n + 2} ELSE {1, 3, n - 1, n + 2}
 OptsFor(n, tag) ==
     IF Family = "lb"
